@@ -202,7 +202,8 @@ def make_helpers(exe):
         if z3.is_int_value(sa):
             v = sa.as_long()
             return z3.BoolVal(v > 0 and (v & (v - 1)) == 0)
-        raise SpecError('is_pow2 of a symbolic value needs bv mode (concretize the parameter)')
+        # symbolic in math mode: an uninterpreted predicate (nothing is assumed about it)
+        return z3.Function('is_pow2', z3.IntSort(), z3.BoolSort())(a)
 
     def arr(x):
         """whole-array term of the object a pointer view points into."""
@@ -294,6 +295,10 @@ class _Rewrite(ast.NodeTransformer):
     def _helper_name(self, n):
         if n.id in self.bound[-1]:
             return n
+        if self.mode[-1] != 'cur':
+            # state-dependent helpers (raw64, rawmem, definitions) must be read in the selected state
+            self.free.add((n.id, self.mode[-1]))
+            return ast.copy_location(ast.Name(id='%s__%s' % (n.id, self.mode[-1]), ctx=n.ctx), n)
         self.free.add((n.id, 'fn'))
         return n
 
